@@ -1,7 +1,8 @@
 (* C15 — Rejected connections and requests never reach a handler, on any ingress.
    Statements only; every proof is `exact <lemma>`. *)
 From Coq Require Import List NArith Arith Bool String.
-From RPCX Require Import Server.Dispatch Server.Ingress Server.IngressProofs Server.Plugins Server.PluginsGen Server.PluginsProofs.
+From RPCX Require Import Server.Dispatch Server.Ingress Server.IngressProofs Server.Plugins Server.PluginsGen Server.PluginsProofs
+  Server.StockPlugins Server.StockPluginsProofs.
 Import ListNotations.
 Open Scope string_scope.
 
@@ -53,6 +54,27 @@ Theorem C15_rejecting_stages_stop_at_the_first_rejection :
   kind_eqb (kind_of plugin_chains "DoPreCall") FirstReject = true.
 Proof. exact rejecting_stages_first_reject. Qed.
 
+(* the stock access-control plugins (serverplugin/): the whitelist admits a connection exactly when its remote address
+   is well-formed and the list or one of the masks names it; the blacklist refuses exactly those; the rate limiter
+   lets exactly the first [capacity] requests of a burst pass; and a connection that the configured plugins do not
+   all admit reaches no handler and gets no result on any ingress *)
+Theorem C15_whitelist_rule : forall addr_ok in_list in_masks,
+  whitelist_admits addr_ok in_list in_masks = true <-> addr_ok = true /\ (in_list = true \/ In true in_masks).
+Proof. exact whitelist_spec. Qed.
+Theorem C15_blacklist_rule : forall addr_ok in_list in_masks,
+  blacklist_admits addr_ok in_list in_masks = false <-> addr_ok = true /\ (in_list = true \/ In true in_masks).
+Proof. exact blacklist_spec. Qed.
+Theorem C15_rate_limit_passes_exactly_capacity : forall capacity n,
+  List.length (filter (fun b => b) (rate_run capacity 0 n)) = Nat.min capacity n.
+Proof. exact rate_limit_passes_exactly_capacity. Qed.
+Theorem C15_refused_connection_reaches_no_handler :
+  forall find codec_ok decodable handler hmeta ing verdicts postread auth precall rq,
+  all_admit verdicts = false ->
+  let c := mkICfg (negb (all_admit verdicts)) postread auth precall in
+  o_invoked (serve find codec_ok decodable handler hmeta ing c rq) = [] /\
+  is_result (o_out (serve find codec_ok decodable handler hmeta ing c rq)) = false.
+Proof. exact refused_connection_reaches_no_handler. Qed.
+
 Example C15_chain_nonvacuous :
   ic_precall (cfg_of_plugins [] [] [false; true; false] false) = true /\
   ic_precall (cfg_of_plugins [] [] [false; false] false) = false.
@@ -68,3 +90,7 @@ Print Assumptions C15_any_rejecting_plugin_wherever_registered.
 Print Assumptions C15_rejecting_stages_stop_at_the_first_rejection.
 Print Assumptions C15_native_auth_failure_closes.
 Print Assumptions C15_heartbeat_never_reaches_a_handler.
+Print Assumptions C15_whitelist_rule.
+Print Assumptions C15_blacklist_rule.
+Print Assumptions C15_rate_limit_passes_exactly_capacity.
+Print Assumptions C15_refused_connection_reaches_no_handler.
